@@ -75,10 +75,42 @@ max_frag = Fn(F, ["impl OsIpcSender", "get_max_fragment_size"], ret="r",
     ensures=[Clause("inprocess.get_max_fragment_size/ensures.never_fragments", "r == usize::MAX", ["C19"])],
     safety_props=["C19"])
 
+REG = Rule("D45", r"ONE_SHOT_SERVERS\s*\.lock\(\)\s*\.unwrap\(\)", "reg", "mutex elimination: the registry is passed in as an exclusive borrow", min_count=1)
+TR = "reg: &mut ServerMap, " + TX
+srv_new = Fn(F, ["impl OsIpcOneShotServer", "new"], ret="r", extra_params=TR,
+    ensures=[
+        Clause("inprocess.server_new/ensures.registered_under_a_name_no_other_server_has",
+               "r matches Ok((srv, name)) ==> !old(reg).m.contains_key(name@) && srv.name@ == name@ && srv.receiver.receiver.v is Some\n"
+               "&& final(reg).m == old(reg).m.insert(name@, srv.receiver.receiver.v->0.chan)", ["C19", "C08"]),
+        Clause("inprocess.server_new/ensures.failure_registers_nothing", "r is Err ==> final(reg).m == old(reg).m", ["C19", "C08"]),
+    ],
+    rules=[REG, Rule("D46", r"Uuid::new_v4\(\)\.to_string\(\)", "fresh_server_name(&*reg)", "uuid: a fresh name"),
+           AppendArg("B92", r"\bchannel\(", XG, "crossbeam unbounded(): a new ideal queue", min_count=1)],
+    safety_props=["C19"])
+srv_accept = Fn(F, ["impl OsIpcOneShotServer", "accept"], ret="r", extra_params=TR,
+    requires=[Clause("inprocess.accept/requires.server_registered",
+                     "old(reg).m.contains_key(self.name@) && self.receiver.receiver.v is Some && old(reg).m[self.name@] == self.receiver.receiver.v->0.chan\n"
+                     "&& old(x).q.contains_key(self.receiver.receiver.v->0.chan)")],
+    ensures=[
+        Clause("inprocess.accept/ensures.registry_entry_and_its_hidden_sender_gone",
+               "final(reg).m == old(reg).m.remove(self.name@)", ["C19", "C08", "C03"]),
+        Clause("inprocess.accept/ensures.first_message_then_the_same_receiver",
+               "r matches Ok((rx, d, c, s)) ==> rx.receiver.v == self.receiver.receiver.v && old(x).q[self.receiver.receiver.v->0.chan].len() > 0\n"
+               "&& d@ == old(x).q[self.receiver.receiver.v->0.chan][0].data && s@ == old(x).q[self.receiver.receiver.v->0.chan][0].regions", ["C19", "C08"]),
+    ],
+    rules=[REG, AppendArg("B93", r"self\.receiver\.recv\(", XG, "the transport's own recv (under contract above)", min_count=1)],
+    safety_props=["C19"])
+snd_connect = Fn(F, ["impl OsIpcSender", "connect"], ret="r", extra_params=TR,
+    requires=[Clause("inprocess.connect/requires.server_exists", "old(reg).m.contains_key(name@)")],
+    ensures=[Clause("inprocess.connect/ensures.sender_of_the_named_servers_channel",
+                    "r matches Ok(s) && s.sender.v.chan == old(reg).m[name@] && final(reg).m == old(reg).m && *final(x) == *old(x)", ["C19", "C08"])],
+    rules=[REG],
+    safety_props=["C19"])
+
 UNIT = Unit(
     name="u13_inprocess",
     prelude=["units/common.rs", "units/u13_inprocess.rs"],
-    groups=[("impl OsIpcReceiver", [recv, try_recv, try_recv_timeout]), ("impl OsIpcSender", [send, max_frag]), ("impl OsIpcReceiverSet", [set_add]), ("impl OsOpaqueIpcChannel", [opaque_new]),
+    groups=[("impl OsIpcReceiver", [recv, try_recv, try_recv_timeout]), ("impl OsIpcSender", [send, max_frag, snd_connect]), ("impl OsIpcOneShotServer", [srv_new, srv_accept]), ("impl OsIpcReceiverSet", [set_add]), ("impl OsOpaqueIpcChannel", [opaque_new]),
             ("impl ipc::IpcError", [conv_ipc]), ("impl ipc::TryRecvError", [conv_try]),
             ("impl ChannelError", [is_closed])],
     props=["C19", "C01", "C02", "C03", "C09", "C10"],
